@@ -108,3 +108,84 @@ Example C01_example_rows :
                         [0; 1#4; 1#2; 7#4; 2; 9#2]%Q)
   = [1; 1; 1; 1; 1; 1]%Q.
 Proof. vm_compute. reflexivity. Qed.
+
+(* ------------------------------------------------------------------------------------------------------
+   Added in build session 4 (statements re-stated from the proof files by harness tooling; each is closed by
+   exact). *)
+From SplipyModel Require Import Proofs.DenseSparse.
+Open Scope R_scope.
+Theorem C01_dense_sparse_agree :
+  forall (F : Type) (H : Num F) (k : list F) (p per1 : nat) (tol : F) (d : nat) (fr : bool) 
+           (ts : list F) (i : nat),
+         (d < p)%nat ->
+         (i < length ts)%nat ->
+         nth i (basis_evaluate k p per1 tol d fr ts) [] =
+         scatter_row (length k - p - per1) (nth i (basis_evaluate_sparse k p per1 tol d fr ts) None).
+Proof. exact @dense_sparse_agree. Qed.
+Print Assumptions C01_dense_sparse_agree.
+
+Theorem C01_dense_sparse_entry :
+  forall (F : Type) (H : Num F) (k : list F) (p per1 : nat) (tol : F) (d : nat) (fr : bool) 
+           (ts : list F) (i c : nat),
+         (d < p)%nat ->
+         (i < length ts)%nat ->
+         (c < length k - p - per1)%nat ->
+         nth c (nth i (basis_evaluate k p per1 tol d fr ts) []) n0 =
+         match nth i (basis_evaluate_sparse k p per1 tol d fr ts) None with
+         | Some e => scatter c e
+         | None => n0
+         end.
+Proof. exact @dense_sparse_entry. Qed.
+Print Assumptions C01_dense_sparse_entry.
+
+Theorem C01_dense_sparse_distinct :
+  forall (k : list R) (p per1 : nat) (tol : R),
+         sorted (kn k) ->
+         (1 <= p)%nat ->
+         (2 * p <= length k)%nat ->
+         0 < tol ->
+         forall (d : nat) (fr : bool) (ts : list R) (i : nat) (idx : list nat) (dat : list R),
+         (d < p)%nat ->
+         (i < length ts)%nat ->
+         (p <= length k - p - per1)%nat ->
+         nth i (basis_evaluate_sparse k p per1 tol d fr ts) None = Some (idx, dat) ->
+         let row := nth i (basis_evaluate k p per1 tol d fr ts) [] in
+         NoDup idx /\
+         (forall j : nat,
+          (j < p)%nat -> (nth j idx 0 < length k - p - per1)%nat /\ nth (nth j idx 0%nat) row 0 = nth j dat 0) /\
+         (forall c : nat, (c < length k - p - per1)%nat -> ~ In c idx -> nth c row 0 = 0).
+Proof. exact @dense_sparse_distinct. Qed.
+Print Assumptions C01_dense_sparse_distinct.
+
+Theorem C01_dense_sparse_nonperiodic :
+  forall (k : list R) (p per1 : nat) (tol : R),
+         sorted (kn k) ->
+         (1 <= p)%nat ->
+         (2 * p <= length k)%nat ->
+         0 < tol ->
+         forall (d : nat) (fr : bool) (ts : list R) (i : nat) (idx : list nat) (dat : list R),
+         per1 = 0%nat ->
+         (d < p)%nat ->
+         (i < length ts)%nat ->
+         nth i (basis_evaluate_sparse k p per1 tol d fr ts) None = Some (idx, dat) ->
+         let row := nth i (basis_evaluate k p per1 tol d fr ts) [] in
+         exists mu : nat,
+           (p <= mu <= length k - p - per1)%nat /\
+           idx = seq (mu - p) p /\
+           (forall j : nat, (j < p)%nat -> nth (mu - p + j) row 0 = nth j dat 0) /\
+           (forall c : nat, (c < length k - p - per1)%nat -> (c < mu - p)%nat \/ (mu <= c)%nat -> nth c row 0 = 0).
+Proof. exact @dense_sparse_nonperiodic. Qed.
+Print Assumptions C01_dense_sparse_nonperiodic.
+
+Theorem C01_sparse_row_shape :
+  forall (F : Type) (H : Num F) (k : list F) (p per1 : nat) (tol : F) (d : nat) (fr : bool) 
+           (ts : list F) (i : nat) (idx : list nat) (dat : list F),
+         (1 <= p)%nat ->
+         (i < length ts)%nat ->
+         nth i (basis_evaluate_sparse k p per1 tol d fr ts) None = Some (idx, dat) ->
+         length idx = p /\
+         length dat = p /\
+         ((0 < length k - p - per1)%nat -> List.Forall (fun ix : nat => (ix < length k - p - per1)%nat) idx).
+Proof. exact @sparse_row_shape. Qed.
+Print Assumptions C01_sparse_row_shape.
+
